@@ -762,8 +762,42 @@ fn corruption(tier: Tier, tally: &mut Tally) {
     tally.sample(json!({"engine": "c05.corrupt", "enc": "rl", "input_hex": "05", "note": "truncated run-length data: literal header without payload"}));
 }
 
+/// very long, very compressible data: one code of the compressed form stands for thousands of bytes, so a decoder
+/// that hands out its output in pieces has to keep going after the input is used up
+fn long_runs(tally: &mut Tally) {
+    let jobs: Vec<(u8, usize, usize)> = [(0u8, 1_000_000usize), (0x41, 1_500_000), (0xff, 2_000_000), (0, 3_000_000), (0x20, 70_000)].iter().flat_map(|&(b, n)| (0..4).map(move |c| (b, n, c))).collect();
+    let parts: Vec<Tally> = jobs
+        .par_iter()
+        .map(|&(byte, len, carrier)| {
+            let mut t = Tally::new();
+            let data = vec![byte; len];
+            let (enc, f, name) = match carrier {
+                0 => (pf::lzw_encode(&data, true, 0), StreamFilter::LZWDecode(LZWFlateParams { early_change: 1, ..Default::default() }), "lzw"),
+                1 => (pf::lzw_encode(&data, false, 0), StreamFilter::LZWDecode(LZWFlateParams { early_change: 0, ..Default::default() }), "lzw-early0"),
+                2 => (pf::flate_encode(&data, FlateStyle::ZlibDefault), StreamFilter::FlateDecode(Default::default()), "flate"),
+                _ => (pf::rl_encode(&data, RlStyle::Greedy, true), StreamFilter::RunLengthDecode, "rl"),
+            };
+            t.evaluations += 1;
+            t.distinct.insert(fnv_mix(fnv(&enc), carrier as u64));
+            match decode_check(&f, &enc, &data) {
+                Ok(()) => t.outcome("ok"),
+                Err((kind, _)) => {
+                    let got = catch(|| decode(&enc, &f)).ok().and_then(|r| r.ok()).map(|d| d.len());
+                    t.outcome(&kind);
+                    t.fail("c05.longrun", &kind, vec![format!("filter={}", name)], format!("{} bytes of {:#04x} encoded to {} bytes: decoded length {:?}", len, byte, enc.len(), got), json!({"engine": "c05.longrun", "byte": byte, "len": len, "carrier": carrier}));
+                }
+            }
+            t
+        })
+        .collect();
+    for p in parts {
+        tally.merge(p);
+    }
+}
+
 pub fn run(tier: Tier, _seed: u64, tally: &mut Tally) -> CheckMeta {
     let maxlen = if tier.thorough() { 3 } else { 2 };
+    long_runs(tally);
     kernel_a85(tier, tally);
     kernel_hex_rl(tally);
     kernel_png(tier, tally);
@@ -781,7 +815,7 @@ pub fn run(tier: Tier, _seed: u64, tally: &mut Tally) -> CheckMeta {
         prop: "C05",
         level: "model_checking",
         rule: format!(
-            "exhaustive kernels ({} ASCII85 groups, all 256 hex pairs x case x white-space placement, all run-length headers, all (left,up) pairs for Sub/Up/Avg and {} for Paeth through flate_decode+Predictor 15); all byte strings of length <= {} x {} independent encoder variants; full product of predictor geometry (8 predictors x 4 carriers x Colors 1-4 x BPC {{1,2,4,8,16}} x Columns 1-5 x 4 data variants x {{1, 2, 3}} rows); all filter chains of length <= 3 x 10 buffers via enc::decode and via Stream::data on generated files; every truncation and single-byte substitution (8 values) of encoded buffers, each failed decode followed by a decode of the undamaged data on the same thread (same bytes as before). A case is non-trivial/distinct by the hash of its encoded bytes + parameters (sweeps are distinct by construction).",
+            "exhaustive kernels ({} ASCII85 groups, all 256 hex pairs x case x white-space placement, all run-length headers, all (left,up) pairs for Sub/Up/Avg and {} for Paeth through flate_decode+Predictor 15); all byte strings of length <= {} x {} independent encoder variants; full product of predictor geometry (8 predictors x 4 carriers x Colors 1-4 x BPC {{1,2,4,8,16}} x Columns 1-5 x 4 data variants x {{1, 2, 3}} rows); runs of 70000 to 3000000 equal bytes through LZW (both EarlyChange values), Flate and RunLength; all filter chains of length <= 3 x 10 buffers via enc::decode and via Stream::data on generated files; every truncation and single-byte substitution (8 values) of encoded buffers, each failed decode followed by a decode of the undamaged data on the same thread (same bytes as before). A case is non-trivial/distinct by the hash of its encoded bytes + parameters (sweeps are distinct by construction).",
             if tier.thorough() { "all 2^32" } else { "all words with <=2 non-zero bytes / <=2 non-'!' digits of" },
             if tier.thorough() { "all 2^24 (left,up,upper-left) triples" } else { "18 boundary upper-left values x all pairs" },
             maxlen,
@@ -881,6 +915,7 @@ pub fn replay(case: &Value, tally: &mut Tally) {
                 tally.add_failure(f.clone());
             }
         }
+        "c05.longrun" => long_runs(tally),
         "c05.file" => crate::props::c05file::replay(case, tally),
         _ => println!("unknown engine {}", engine),
     }
